@@ -95,6 +95,13 @@ pub fn corpus(thorough: bool) -> Vec<Corpus> {
         items.extend(small_maps(nids, c));
     }
     out.push(Corpus { family: "small-maps", items });
+    // the same over id alphabets that sit on varint-width and u32 boundaries (3^6 maps each)
+    let mut items = Vec::new();
+    for c in COMPS {
+        items.extend(maps_over(&IDS_VARINT, 2, c));
+        items.extend(maps_over(&IDS_U32, 2, c));
+    }
+    out.push(Corpus { family: "boundary-id-maps", items });
     let mut items = Vec::new();
     for c in COMPS {
         items.extend(large_maps(c));
@@ -182,7 +189,7 @@ pub fn scale_jobs(thorough: bool) -> Vec<(u32, usize, Compression)> {
 pub fn run(tier: &str) -> i32 {
     let rep = Report::new("C01", tier, "exploration");
     let thorough = rep.thorough();
-    rep.rule("all partial maps of ids {0,1,2,4,5[,LAST]} into contents {41,42,4100,4101} x 4 compressions x {sync,async} writer x {sync,async} reader; all 4^3 maps of three 100KiB near-duplicate contents; metadata alphabet (incl. 5KiB string, integer extremes, 140 floats) x 4c x 3 maps; settings alphabet (30 enum pairs, 64 zoom triples, 153 coordinate sextuples) x 2 maps; cross-product control; scale families forcing leaf spill; non-trivial = archives with >=1 tile or non-empty metadata/non-default settings; distinct = distinct written byte images");
+    rep.rule("all partial maps of ids {0,1,2,4,5[,LAST]} into contents {41,42,4100,4101}, all 3^6 maps of ids {127,128,129,16383,16384,16385} and of {2^32-2,2^32-1,2^32,2^32+1,2^56,LAST-1} into two contents, x 4 compressions x {sync,async} writer x {sync,async} reader; all 4^3 maps of three 100KiB near-duplicate contents; metadata alphabet (incl. 5KiB string, integer extremes, 140 floats) x 4c x 3 maps; settings alphabet (30 enum pairs, 64 zoom triples, 153 coordinate sextuples) x 2 maps; cross-product control; scale families forcing leaf spill; non-trivial = archives with >=1 tile or non-empty metadata/non-default settings; distinct = distinct written byte images");
     rep.assume("contents above 100 KiB, tile counts above 5*10^4 and metadata outside the alphabet are not explored");
     rep.assume("coordinates: stored value must equal the exact nearest multiple of 1e-7 (either neighbour at an exact tie)");
 
